@@ -5,6 +5,7 @@ var Registry = map[string]func(tier, replay string) int{
 	"C02": RunC02,
 	"C03": RunC03,
 	"C06": RunC06,
+	"C08": RunC08,
 	"C10": RunC10,
 	"C05": RunC05,
 	"C12": RunC12,
